@@ -382,6 +382,49 @@ CORPUS = [
 ]
 
 
+def rebuild_monitor(chk, cases, tier):
+    """the vibronic structure must follow the CURRENT parameters: an aggregate built, changed (Huang-Rhys factor of a mode)
+    and built again - or rebuilt - must equal an aggregate built fresh from the changed parameters"""
+    import copy
+    import numpy as np
+    done = 0
+    for c in cases:
+        if c.get("kind") != "agg" or not any(mc["modes"] for mc in c["mols"]):
+            continue
+        if done >= (8 if tier == "quick" else 60):
+            break
+        done += 1
+        try:
+            agg, mols = make_aggregate(c)
+            agg.build(mult=c["mult"])
+            H0 = np.array(agg.get_Hamiltonian()._data)
+            c2 = copy.deepcopy(c)
+            k = [i for i, mc in enumerate(c["mols"]) if mc["modes"]][0]
+            old = c2["mols"][k]["modes"][0]["hr"]
+            new = 0.75 if old != 0.75 else 0.25
+            c2["mols"][k]["modes"][0]["hr"] = new
+            mols[k].get_Mode(0).set_HR(1, new)
+            how = ["build", "rebuild"][done % 2]
+            if how == "build":
+                agg.build(mult=c["mult"])
+            else:
+                agg.rebuild(mult=c["mult"])
+            H1, D1 = np.array(agg.get_Hamiltonian()._data), np.array(agg.DD)
+            fresh, _ = make_aggregate(c2)
+            fresh.build(mult=c["mult"])
+            H2, D2 = np.array(fresh.get_Hamiltonian()._data), np.array(fresh.DD)
+            sc = max(1.0, float(np.max(np.abs(H2))))
+            if H1.shape != H2.shape or np.max(np.abs(H1 - H2)) > 1e-12 * sc or np.max(np.abs(D1 - D2)) > 1e-12 * max(1.0, float(np.max(np.abs(D2)))):
+                dev = float(np.max(np.abs(H1 - H2))) if H1.shape == H2.shape else float("nan")
+                chk.violation("rebuild:stale_parameters", "aggregate built, Huang-Rhys factor of molecule %d changed %g -> %g, then %s(): Hamiltonian/dipoles differ from "
+                              "an aggregate built fresh from the changed parameters (max |dH| = %g; unchanged from the first build: %s)"
+                              % (k, old, new, how, dev, bool(H1.shape == H0.shape and np.array_equal(H1, H0))), "monitor", dict(c, changed_hr=[k, old, new], how=how))
+            chk.count("rebuild:" + how)
+            chk.case(("rebuild", json.dumps(c, sort_keys=True), how), True)
+        except Exception as e:
+            chk.violation("rebuild:exception", "rebuild monitor raised %r on %s" % (e, json.dumps(c)[:300]), "monitor", c)
+
+
 def main():
     chk = cm.Check(PID, args.tier)
     chk.rule = ("real Aggregate.build runs: 1-3 two-level molecules, 0-2 modes each, 1-3 levels per mode and electronic state, integer "
@@ -413,6 +456,7 @@ def main():
         cases += [{"kind": "nd", "shape": [r.choice([1, 2, 2, 3, 4, 0 if r.random() < 0.05 else 2]) for _ in range(r.randint(0, 4))]}
                   for _ in range(30 if quick else 200)]
         run(chk, cases)
+        rebuild_monitor(chk, cases, args.tier)
         fc_law_monitors(chk, args.tier)
     chk.finish()
 
